@@ -1003,3 +1003,191 @@ B('c05-benign-positional-byteorder', 'C05', F,
             )''',
   '''            order = 'big' if self.is_bigendian else 'little'
             data = integer.to_bytes(self.byte_count, order, signed=self.is_signed)''')
+
+# =========================================================================== C07
+S('c07-mask-dropped-in-pack', 'C07', F,
+  '''            ((getattr(pkt, self.field_name) << self.shift) & self.mask) |
+            (I & (~self.mask))''',
+  '''            (getattr(pkt, self.field_name) << self.shift) |
+            (I & (~self.mask))''', 'R8-confinement')
+S('c07-invert-lost', 'C07', F,
+  '''            (I & (~self.mask))''', '''            (I & (self.mask))''', 'R8-confinement')
+S('c07-shift-after-increment', 'C07', F,
+  '''                f.shift = cumshift
+                f.mask = ((2**f.bit_count) - 1) << f.shift
+                f.I = I
+
+                self.members.append((n, f.bit_count))
+
+                cumshift += f.bit_count''',
+  '''                cumshift += f.bit_count
+                f.shift = cumshift
+                f.mask = ((2**f.bit_count) - 1) << f.shift
+                f.I = I
+
+                self.members.append((n, f.bit_count))
+''', 'R8-shift-mask')
+S('c07-boundary-check-weakened', 'C07', F, '''            if not (cumshift % 8 == 0):''', '''            if not (cumshift % 4 == 0):''', 'R8-byte-boundary')
+S('c07-boundary-check-removed', 'C07', F,
+  '''            if not (cumshift % 8 == 0):
+                raise Bits.ByteBoundaryError(
+                    "Wrong sequence of bits: %s with total sum of %i (not a multiple of 8)."
+                    % (str(list(bit_sequence)), cumshift)
+                )
+''', '', 'R8-byte-boundary')
+S('c07-shared-int-class-conf', 'C07', F,
+  '''            I._compile(position=-1, fields=[], bisturi_conf={})''',
+  '''            I._compile(position=-1, fields=[], bisturi_conf=bisturi_conf)''', 'R8-shared-int')
+S('c07-width-rounded-up', 'C07', F, '''            I.byte_count = cumshift // 8''', '''            I.byte_count = (cumshift + 7) // 8''', 'R8-byte-boundary')
+S('c07-unpack-no-mask', 'C07', F,
+  '''        setattr(pkt, self.field_name, (I & self.mask) >> self.shift)''',
+  '''        setattr(pkt, self.field_name, I >> self.shift)''', 'R8-extract')
+S('c07-mask-width-off', 'C07', F,
+  '''                f.mask = ((2**f.bit_count) - 1) << f.shift''', '''                f.mask = ((2**f.bit_count)) << f.shift''', 'R8-shift-mask')
+S('c07-forward-walk', 'C07', F,
+  '''            for n, f in reversed(fields[:position + 1]):''', '''            for n, f in fields[:position + 1]:''', 'R8-bits-run')
+S('c07-every-member-packs', 'C07', F,
+  '''        if self.iam_last:
+            return self.I.pack(pkt, fragments=fragments, **k)
+        else:
+            return fragments''',
+  '''        if self.iam_last or self.iam_first:
+            return self.I.pack(pkt, fragments=fragments, **k)
+        else:
+            return fragments''')
+S('c07-init-not-zeroed', 'C07', F,
+  '''        if self.iam_first:
+            setattr(packet, self.I.field_name, 0)
+
+        setattr(
+            packet, self.field_name,''',
+  '''        setattr(
+            packet, self.field_name,''', 'R8-init-zero')
+S('c07-first-test-two-back', 'C07', F,
+  '''        if position == 0 or not isinstance(fields[position - 1][1], Bits):
+            self.iam_first = True''',
+  '''        if position == 0 or not isinstance(fields[position - 2][1], Bits):
+            self.iam_first = True''', 'R8-bits-run')
+S('c07-no-break', 'C07', F,
+  '''                if not isinstance(f, Bits):
+                    break
+
+                f.shift = cumshift''',
+  '''                if not isinstance(f, Bits):
+                    continue
+
+                f.shift = cumshift''', 'R8-bits-run')
+B('c07-benign-shift-notation', 'C07', F,
+  '''                f.mask = ((2**f.bit_count) - 1) << f.shift''', '''                f.mask = ((1 << f.bit_count) - 1) << f.shift''')
+B('c07-benign-pack-order', 'C07', F,
+  '''            ((getattr(pkt, self.field_name) << self.shift) & self.mask) |
+            (I & (~self.mask))''',
+  '''            (I & ~self.mask) | (self.mask & (getattr(pkt, self.field_name) << self.shift))''')
+
+# =========================================================================== C10
+S('c10-outer-mod-dropped-unpack', 'C10', SF,
+  '''            return offset + (
+                (move_value - ((offset - start) % move_value)) % move_value
+            )''',
+  '''            return offset + (
+                (move_value - ((offset - start) % move_value))
+            )''', 'R8-move-formula')
+S('c10-residue-sign', 'C10', SF,
+  '''            offset += (
+                (move_value - ((offset - start) % move_value)) % move_value
+            )''',
+  '''            offset += (
+                (move_value + ((offset - start) % move_value)) % move_value
+            )''', 'R8-move-formula')
+S('c10-begins-start-one-side', 'C10', SF,
+  '''        offset = fragments.current_offset
+        if self.is_alignment:
+            if self.reference == 'begins':
+                start = 0''',
+  '''        offset = fragments.current_offset
+        if self.is_alignment:
+            if self.reference == 'begins':
+                start = k['innermost-pkt-pos']''', 'R8-move-siblings')
+S('c10-innermost-after-first-field', 'C10', PK,
+  '''        k['innermost-pkt-pos'] = offset
+        try:
+            for name, f, _, unpack in self.get_fields():
+                offset = unpack(pkt=self, raw=raw, offset=offset, **k)''',
+  '''        try:
+            for name, f, _, unpack in self.get_fields():
+                offset = unpack(pkt=self, raw=raw, offset=offset, **k)
+                k.setdefault('innermost-pkt-pos', offset)''', 'R2-innermost-pkt-pos')
+S('c10-pad-missing-until-loop', 'C10', SF,
+  '''        while should_continue:
+            offset += (aligned_to - (offset % aligned_to)) % aligned_to
+            offset = unpack(pkt=pkt, raw=raw, offset=offset, **k)''',
+  '''        while should_continue:
+            offset = unpack(pkt=pkt, raw=raw, offset=offset, **k)''', 'R8-element-pad')
+S('c10-pack-pad-after-element', 'C10', SF,
+  '''            fragments.current_offset += (
+                aligned_to - (fragments.current_offset % aligned_to)
+            ) % aligned_to
+            pack(pkt, fragments, **k)''',
+  '''            pack(pkt, fragments, **k)
+            fragments.current_offset += (
+                aligned_to - (fragments.current_offset % aligned_to)
+            ) % aligned_to''', 'R8-element-pad')
+S('c10-at-default-reference', 'C10', F,
+  '''    def at(self, position, reference='innermost-pkt'):''', '''    def at(self, position, reference='begins'):''', 'R8-modifiers')
+S('c10-shift-absolute', 'C10', F,
+  '''        self.move_arg = position
+        self.reference = 'current-offset'
+        self.is_alignment = False''',
+  '''        self.move_arg = position
+        self.reference = 'innermost-pkt'
+        self.is_alignment = False''', 'R8-modifiers')
+S('c10-move-after-field', 'C10', F,
+  '''            return [(m.field_name, m), (field_name, self)]''', '''            return [(field_name, self), (m.field_name, m)]''', 'R8-modifiers')
+S('c10-class-align-overrides', 'C10', F,
+  '''        if self.move_arg is None and 'align' in bisturi_conf:''', '''        if 'align' in bisturi_conf:''', 'R8-modifiers')
+S('c10-move-pack-emits', 'C10', SF,
+  '''        fragments.current_offset = offset
+        return fragments''',
+  '''        fragments.append(fragments.fill * max(offset - fragments.current_offset, 0))
+        fragments.current_offset = offset
+        return fragments''', 'R8-move-only-moves')
+S('c10-current-offset-pack-absolute', 'C10', SF,
+  '''            elif self.reference == 'current-offset':
+                offset += move_value
+            elif self.reference == 'innermost-pkt':
+                offset = k['innermost-pkt-pos'] + move_value''',
+  '''            elif self.reference == 'current-offset':
+                offset = move_value
+            elif self.reference == 'innermost-pkt':
+                offset = k['innermost-pkt-pos'] + move_value''', 'R8-move-siblings')
+S('c10-seq-default-align-ignored', 'C10', SF,
+  '''            self.aligned_to = bisturi_conf.get('align', 1)''', '''            self.aligned_to = 1''', 'R8-element-pad')
+S('c10-ctor-args-swapped', 'C10', F,
+  '''            m = Move(self.move_arg, self.reference, self.is_alignment)''', '''            m = Move(self.move_arg, self.is_alignment, self.reference)''', 'R8-modifiers')
+B('c10-benign-pad-rewrite', 'C10', SF,
+  '''            offset += (aligned_to - (offset % aligned_to)) % aligned_to
+            offset = unpack(pkt=pkt, raw=raw, offset=offset, **k)
+
+            # because''',
+  '''            pad = -offset % aligned_to
+            offset = offset + pad
+            offset = unpack(pkt=pkt, raw=raw, offset=offset, **k)
+
+            # because''')
+B('c10-benign-elif-reorder', 'C10', SF,
+  '''            if self.reference == 'begins':
+                return move_value
+            elif self.reference == 'current-offset':
+                return offset + move_value
+            elif self.reference == 'innermost-pkt':
+                return k['innermost-pkt-pos'] + move_value
+            else:
+                raise Exception()''',
+  '''            if self.reference == 'current-offset':
+                return move_value + offset
+            elif self.reference == 'begins':
+                return move_value
+            elif self.reference == 'innermost-pkt':
+                return move_value + k['innermost-pkt-pos']
+            else:
+                raise Exception()''')
